@@ -14,6 +14,9 @@ def explore(res, scale=1, seed=None):
     # column bodies larger than 1 MiB (chunked reads) and 128 KiB (bufio): direct oracle + digest compared between builds
     big = colfam.run_direct(res, "c15big", 1, seed, builds=("default", "purego"))
     n += colfam.compare_builds(res, big["default"], big["purego"], "c15big")
+    # the vectored path (WriteColumn + Flush) against the buffer path for every catalogue kind in both builds, the
+    # preceding bytes handed over in the Writer's own buffer or chained (direct oracle per build)
+    colfam.run_direct(res, "c14col", 1, seed, builds=("default", "purego"))
     res.extra["cases_compared_between_builds"] = n
     res.extra["rule"] = ("the same seeded cases run by the harness compiled without and with -tags purego: encodings (into non-empty "
                          "buffers), decodes into fresh columns, prefixes; family c15: every value of the 8-bit element types "
